@@ -1,6 +1,6 @@
 """C07 - capacity contract and address stability."""
 from .. import matrix
-from ..rules import shape
+from ..rules import shape, ownership, lifetime
 
 
 def run(tier, runner):
@@ -9,15 +9,19 @@ def run(tier, runner):
     r_cs = shape.cap_stable(progs)
     r_gg = shape.grow_guard(progs)
     r_geo, facts = shape.geo(progs)
+    r_st = ownership.steal(progs)
+    r_cd = lifetime.check_dom(progs)
+    r_st.require(6, 'hand-over functions')
+    r_cd.require(20, 'constructs into container storage')
     r_cs.require(20, 'public mutators of the dynamic vectors')
     r_gg.require(7, 'grow call sites')
     r_geo.require(2, 'SafeNextCapacity')
     return {
-        'results': [r_cs, r_gg, r_geo],
+        'results': [r_cs, r_gg, r_geo, r_st, r_cd],
         'explanation': 'CAP-STABLE: call-graph exclusion - from erase/clear/pop_back/assign/resize/insert/push_back/emplace*/append/copy-assignment no '
                        'path reaches an allocator request, release, shrink or resetToSmall except through grow, so these operations can neither lower '
                        'capacity nor move the buffer when the result fits.  GROW-GUARD: every grow is conditioned on capacity()<needed or size()==capacity() '
-                       'and grows to the compared request (reserve included: after reserve(n) capacity()>=n by GEO exact path).  GEO: grow never lowers capacity.',
+                       'and grows to the compared request (reserve included: after reserve(n) capacity()>=n by GEO exact path).  GEO: grow never lowers capacity.  STEAL: moving from / swapping heap-backed vectors hands the buffer over without any element operation.  CHECK-DOM: every growth of the size is dominated by a capacity check of the destination (structural half of size() <= capacity()).',
         'assumptions': ['does not decide size()<=capacity()<=max_size() as a run-time inequality (structural half: CHECK-DOM under C01/C08)'],
         'trusted': ['resolved call graph of the amcsa plugin', 'libstdc++ 12 headers'],
         'coverage': {'growth_facts_per_size_type': facts},
